@@ -127,6 +127,16 @@ def show(t):
     return t[1]
 
 
+def _rejects(res, stmts):
+    """Does the statement list raise LenaTypeError (as one of its own statements)?"""
+    for r in stmts:
+        if isinstance(r, ast.Raise) and r.exc is not None:
+            ex = r.exc.func if isinstance(r.exc, ast.Call) else r.exc
+            if res.canon(ex) == LTE:
+                return True
+    return False
+
+
 def check_constructors(ctx):
     res = ctx.res
     fn = ctx.tree.func(SEQ, "Sequence.__init__")
@@ -189,8 +199,11 @@ def check_constructors(ctx):
     fmap = {fvar: "first"} if fvar else {}
     guards = [i for i in A.walk_local(sfn) if isinstance(i, ast.If) and "callable(first)" in A.src_with(i.test, fmap)
               and "__iter__" in A.src(i.test)]
-    okg = any(A.src_with(g.test, fmap).replace('"', "'") == "not (callable(first) or hasattr(first, '__iter__'))" and any(
-        isinstance(r, ast.Raise) and res.canon(r.exc.func) == LTE for r in g.body) for g in guards)
+    # the branch that raises is the one taken when first is neither callable nor iterable, whichever way the test is spelled
+    # (`if not (c or h): raise` / `if c or h: ... else: raise` / `if not c and not h: raise`)
+    okg = any(_rejects(res, branch) and sorted((A.src_with(t, fmap), pol) for t, pol in A.literals(g.test, outcome))
+              == [("callable(first)", False), ("hasattr(first, '__iter__')", False)]
+              for g in guards for branch, outcome in ((g.body, True), (g.orelse, False)))
     ctx.check("C01-b", okg, sfn, "Source.__init__ does not reject a first element that is neither callable nor iterable with LenaTypeError",
               detail="first element checked at construction", construct="source-first-check")
     tails = [a for a in A.walk_local(sfn) if isinstance(a, ast.Assign) and any(A.is_self_attr(t, "_tail") for t in a.targets)]
@@ -225,6 +238,40 @@ def check_constructors(ctx):
     ctx.instances_floor("C01-b/Run", n, 4, "normal exits of Run.__init__")
 
 
+def _deref(p, ret, keep):
+    """The expression a `return` of path *p* delivers: `_r = f(x); return _r` delivers `f(x)`.  A returned local name (other
+    than the role names in *keep*) is replaced by the value of its last plain assignment before the return on the path.
+    Returns (expr, stale): stale names a variable of the defining expression that is rebound between the definition and
+    the return (the expression's text then no longer describes the returned value), else None."""
+    v = ret.value
+    end = p.index(ret)
+    seen = set()
+    while isinstance(v, ast.Name) and v.id not in keep and v.id not in seen:
+        seen.add(v.id)
+        at = None
+        for i, e in enumerate(p.ev[:end]):
+            if e[0] in ("stmt", "partial") and v.id in [x for t in A.assigned_targets(e[1]) for x in A.target_names(t)]:
+                at = i if e[0] == "stmt" and isinstance(e[1], ast.Assign) and len(e[1].targets) == 1 \
+                    and isinstance(e[1].targets[0], ast.Name) else None
+            elif e[0] == "iter" and v.id in A.target_names(e[1].target):
+                at = None
+        if at is None:
+            break
+        val = p.ev[at][1].value
+        used = A.names_loaded(val)
+        for e in p.ev[at + 1:end]:
+            bound = []
+            if e[0] in ("stmt", "partial"):
+                bound = [x for t in A.assigned_targets(e[1]) for x in A.target_names(t)]
+            elif e[0] == "iter":
+                bound = A.target_names(e[1].target)
+            hit = [x for x in bound if x in used]
+            if hit:
+                return val, hit[0]
+        v, end = val, at
+    return v, None
+
+
 def check_source_call(ctx):
     res = ctx.res
     fn = ctx.tree.func(SRC, "Source.__call__")
@@ -247,7 +294,11 @@ def check_source_call(ctx):
             ctx.violation("C01-c", fn, "Source.__call__ returns nothing on path [%s]" % p.describe(), construct="no-return", path=p)
             continue
         n += 1
-        v = rets[0].value
+        v, stale = _deref(p, rets[0], nm)
+        if stale:
+            ctx.unknown("C01-c", rets[0], "Source.__call__ returns `%s`, defined as `%s` before `%s` is rebound on path [%s]: the analyser "
+                        "does not relate the returned value to the first element's flow" % (A.src(rets[0].value), A.src(v), stale, p.describe()))
+            continue
         lits = [A.src_with(t, nm) if pol else ("not (%s)" % A.src_with(t, nm) if isinstance(t, (ast.BoolOp, ast.Compare, ast.IfExp))
                                                  else "not " + A.src_with(t, nm)) for t, pol in p.literals()]
         # definition of the flow variable on this path
@@ -323,7 +374,7 @@ VARIANTS = [
     M("init-swallows-error", "lena/core/sequence.py", "                except exceptions.LenaTypeError:\n                    raise exceptions.LenaTypeError(\n                        \"arguments must implement run method, \"\n                        \"or be callable generators (convertible to Run), \"\n                        \"{} given\".format(el)\n                    )",
       "                except exceptions.LenaTypeError:\n                    seq.append(el)", ["C01-b"]),
     M("init-typeerror", "lena/core/sequence.py", "                except exceptions.LenaTypeError:\n                    raise exceptions.LenaTypeError(", "                except exceptions.LenaTypeError:\n                    raise TypeError(", ["C01-b"]),
-    M("run-branch-forgets-run", "lena/core/adapters.py", "            elif callable(el):\n                self.run = self._call_run", "            elif callable(el):\n                pass", ["C01-b"]),
+    M("run-branch-forgets-run", "lena/core/adapters.py", "            elif callable(el):\n                # Call to Run\n                self.run = self._call_run", "            elif callable(el):\n                pass", ["C01-b"]),
     M("source-tail-skips-one", "lena/core/source.py", "self._tail = Sequence(*(self._data_seq[1:]))", "self._tail = Sequence(*(self._data_seq[2:]))", ["C01-b"]),
     M("source-first-iterator", "lena/core/source.py", "        self._first = first\n", "        self._first = first if callable(first) else flow_to_iter(first)\n", ["C01-b"]),
     M("source-call-skips-tail", "lena/core/source.py", "        if self._tail:\n            return self._tail.run(flow)\n        else:\n            return flow_to_iter(flow)", "        return flow_to_iter(flow)", ["C01-c"]),
